@@ -17,6 +17,11 @@ CHECKS = {
    "Inputs obey the documented precondition (sorted by Begin, Begin<=End). Exhaustive only inside the small alphabet; beyond it sampled.",
    "property-based testing: bounded exhaustive enumeration + rapid, oracle = coverage/validity predicates and idempotence",
    "DESIGN.md 3/C17"),
+ "C16": ("exploration",
+   "Generated-input search against transliterations of the SAM 5.3 and CSI reference C code: rapid records (positions on tile/bin edges, CIGARs over all ten ops up to 2^28-1) for End/Len/Lengths/IsValid/Bin; BinFor on the 16 KiB tile grid (thorough: all 2^15x2^15/2 tile pairs, exhaustive at tile granularity; quick: near pairs, power-of-two edges, sampled far pairs); OverlappingBinsFor as sets on narrow, edge and wide intervals; pairwise overlap => bin membership; CSI reg2bin/reg2bins exhaustively over all intervals and overlapping pairs of every geometry with range <=64 (thorough 128) and sampled up to minShift+3*depth=32.",
+   "Trusted: the harness' transliterations of the specification code. Bin is not judged where the specification is silent (see evidence assumptions). Large CSI geometries and wide BAI bin lists are sampled.",
+   "property-based testing: exhaustive grid enumeration + rapid, oracle = independent spec transliteration and overlap=>membership relation",
+   "DESIGN.md 3/C16"),
 }
 
 NOT_YET = {}
